@@ -61,6 +61,7 @@ def run(chk):
                     chk.monitor_fail("node %d has no connection limit and no Never entry for %d but the dial failed" % (b, a), dict(case=rec["scenario"][:2000], op_index=oi))
     background_dials(chk)
     failed_handshakes(chk)
+    replacements(chk)
     chk.assumptions += ["arrivals do not overlap (the code documents the limit as approximate for simultaneous arrivals)",
                         "a peer that reconnects while still connected counts against the limit like any other connection (by design, not alarmed)"]
     if not quick:
@@ -113,6 +114,56 @@ def background_dials(chk):
             chk.monitor_fail("the High-affinity known peer %d was not dialed in the background while the node was at its connection limit (%d): %s" % (k, limit, res[-1]), dict(case=sc))
         if sorted(x for x in final if x) != sorted(x for x in mlist if x):
             chk.disagree(sc, "node 0 lists %s" % sorted(final), "NetModel.v: %s" % sorted(mlist), "simnet/netmodel-outbound")
+
+
+def replacements(chk):
+    """A connection that is replaced (the application dials a connected peer again, or that peer dials in again while there
+    is room) is still one connection: afterwards the node admits exactly limit-1 further unknown peers."""
+    quick = chk.tier == "quick"
+    scen, metas, models = [], [], []
+    for i in range(6 if quick else 40):
+        rng = chk.rng
+        limit = rng.choice([2, 2, 3, 4])
+        reps = rng.randrange(1, 4)
+        cmds = ["seed=%d delay=%d" % (rng.randrange(1 << 30), rng.choice([200, 2000])),
+                "node 0 key=10 name=n10 maxconn=%d ctimeout=500 idle=600000 keepalive=5000" % limit]
+        for j in range(1, limit + 2):
+            cmds.append("node %d key=%d name=n10 idle=600000 keepalive=5000" % (j, 10 + j))
+        ops = []
+        for r in range(reps + 1):
+            if rng.random() < 0.6 or i % 2 == 0:
+                cmds += ["connect 0 1", "sleep 300"]
+                ops.append("D 100 1")
+            else:
+                cmds += ["connect 1 0", "sleep 300"]
+                ops.append("D 1 100")
+        cmds += ["peers 0"]
+        for j in range(2, limit + 2):
+            cmds += ["connect %d 0" % j, "sleep 300"]
+            ops.append("D %d 100" % j)
+        cmds += ["peers 0"]
+        scen.append("simnet " + " ; ".join(cmds))
+        metas.append((limit, reps))
+        spec = "100:10:-:%d;" % limit + ";".join("%d:10:-:-" % j for j in range(1, limit + 2))
+        models.append("netmodel %s | %s" % (spec, " / ".join(ops)))
+    outs, parsed = simnet.run_scenarios(chk, scen, "fabric:replacements-then-arrivals")
+    for sc, res, (limit, reps), mo in zip(scen, parsed, metas, run_model(models)):
+        if res is None:
+            continue
+        chk.nontriv(sc)
+        chk.count("replacements-before-arrivals", reps)
+        cl = [c.strip() for c in sc[len("simnet "):].split(" ; ")][1:]
+        arr = [(c, x) for c, x in zip(cl, res) if c.startswith("connect ") and c.endswith(" 0") and not c.startswith("connect 1 ")]
+        admitted = [c.split()[1] for c, x in arr if x.startswith("ok")]
+        final = sorted(x for x in res[-1].strip("[]").split(",") if x)
+        if res[cl.index("peers 0")] != "[1]":
+            chk.monitor_fail("after %d dial(s) between node 0 and peer 1 node 0 lists %s" % (reps + 1, res[cl.index("peers 0")]), dict(case=sc))
+        elif len(admitted) != limit - 1:
+            chk.monitor_fail("limit %d, one connection (replaced %d time(s)): %d of %d unknown arrivals were admitted, exactly %d fit" % (limit, reps, len(admitted), len(arr), limit - 1), dict(case=sc, impl=str(arr)[:600]))
+        mlast = mo.split(" | ")[-1]
+        mlist = sorted(x for x in dict(x.split(":") for x in mlast.split(" L=")[1].split(";"))["100"].strip("[]").split(",") if x)
+        if final != mlist:
+            chk.disagree(sc, "node 0 lists %s" % final, "NetModel.v: %s" % mlist, "simnet/netmodel-replacements")
 
 
 def failed_handshakes(chk):
